@@ -139,6 +139,8 @@ type Result struct {
 	Note        string          `json:"note,omitempty"`
 	NodeTypes   map[string]int  `json:"node_types,omitempty"` // node types evaluated by the reference evaluations
 	Funcs       map[string]int  `json:"funcs,omitempty"`      // callables called by the reference evaluations
+	Outs        []string        `json:"outs,omitempty"` // "<triple hash>:<outcome hash>" of unfaulted evaluations (C05 cross-process oracle)
+	OutTexts    map[string]string `json:"out_texts,omitempty"` // triple hash -> "program on doc -> outcome" (for reports)
 	DocRanges   []AddrRange     `json:"-"`
 	NontrivKeys []string        `json:"nontriv_keys,omitempty"` // C07: hashes of (program, document) pairs of copying/transform families
 }
